@@ -1141,7 +1141,7 @@ class Summaries:
                         fields.append(NONE)
                     else:
                         return Agg('JsonErr', ())
-            return Agg(td.name, fields, vi, v.vname)
+            return Agg(td.name, fields, vi, v.vname, td=td)
         return v
 
     def drain(self, st, it):
